@@ -299,7 +299,8 @@ func judgeC16(c c16Case) (v core.Verdict) {
 			st := m.status[op.Name]
 			touched := map[int]bool{}
 			wantOK, det := false, false
-			if c.Dev || st == stNot {
+			if c.Dev || st != stCached {
+				// also for "maybe cached" names: whatever a cold load would pull in may get cached
 				wantOK, det = m.cold(op.Name, true, touched)
 			}
 			t, o := jetrun.Get(s, name)
